@@ -313,6 +313,17 @@ def _solve_one(idx) -> Dict[str, Any]:
                     out["reason"] += f" | {name}: not installed"
         finally:
             os.unlink(path)
+    if out["verdict"] == "unknown" and os.environ.get("VF_VC_DUMP"):
+        # post-mortem material: the query no back end could decide, as text (the replay file points at it)
+        try:
+            import re as _re
+            os.makedirs(os.environ["VF_VC_DUMP"], exist_ok=True)
+            fn = os.path.join(os.environ["VF_VC_DUMP"], _re.sub(r"[^A-Za-z0-9_.]+", "_", ob.name) + f"_path{ob.path}.smt2")
+            with open(fn, "w") as fh:
+                fh.write("; " + ob.name + " path %d line %d: %s\n(set-logic ALL)\n" % (ob.path, ob.line, ob.text[:200]) + to_smt2(ob))
+            out["vc_file"] = fn
+        except Exception:  # pragma: no cover
+            pass
     if out["verdict"] == "unknown":
         # no verdict on the full query: a model of its quantifier-free part is attached as a *candidate* input only
         # (the verdict stays unknown; the native replay decides whether the candidate really fails)
